@@ -88,4 +88,18 @@ theorem pal_pos (p : Presence) : decide (count p stdTab.pal > 0) = palAny p := b
 theorem nonpal_pos (p : Presence) : decide (count p stdTab.nonpal > 0) = nonpalAny p := by
   rw [count_pos_any]; simp [stdTab, Presence.get, nonpalAny, Bool.or_assoc]
 
+/-- any orbital argument (the members of `Norb` / `orbi`) -/
+def orbAny (p : Presence) : Bool :=
+  p.primary || p.a || p.P || p.e || p.inc || p.Omega || p.omega || p.pomega || p.f || p.M ||
+    p.E || p.l || p.theta || p.T
+
+theorem orb_pos (p : Presence) : decide (count p stdTab.orb > 0) = orbAny p := by
+  rw [count_pos_any]; simp [stdTab, Presence.get, orbAny, Bool.or_assoc]
+
+theorem core_cart (zc zo zn zp : Bool) (nl : Nat) (fl : Flags) :
+    cCore zc zo zn zp nl fl = .ok .cartesian ↔ ((zn && zp) = false ∧ zo = false) := by
+  unfold cCore
+  cases zc <;> cases zo <;> cases zn <;> cases zp <;> simp <;> repeat' split
+  all_goals simp
+
 end RV.OrbitArgs
